@@ -19,6 +19,7 @@ import (
 	"os/exec"
 	"path/filepath"
 	"runtime"
+	"runtime/pprof"
 	"sort"
 	"strconv"
 	"strings"
@@ -48,6 +49,7 @@ var (
 	fIdx      = flag.Int("idx", 1<<30, "scenario index used with -runseed")
 	fDump     = flag.Bool("dump", false, "with -runseed: print the scenario")
 	fEventLog = flag.String("eventlog", "", "worker: append one line per run (determinism self-test)")
+	fCPUProf  = flag.String("cpuprofile", "", "worker: write a CPU profile")
 )
 
 func main() {
@@ -179,6 +181,11 @@ func journal(sc *props.Scenario) {
 
 func workerMain() int {
 	p := prop()
+	if *fCPUProf != "" {
+		f, _ := os.Create(*fCPUProf)
+		_ = pprof.StartCPUProfile(f)
+		defer pprof.StopCPUProfile()
+	}
 	journalPath = *fOut + ".journal"
 	props.JournalHook = journal
 	res := &WorkerResult{Index: *fWIndex, Inconclusive: map[string]int{}, Signatures: map[string]int{}, Probes: map[string]int{},
